@@ -135,6 +135,12 @@ func (pm *Manager) GetProxyStatus(name string) (*WorkingStatus, bool) {
 
 func (pm *Manager) UpdateAll(proxyCfgs []v1.ProxyConfigurer) {
 	xl := xlog.FromContextSafe(pm.ctx)
+	// If a name is listed more than once, the first entry is the one that gets started below, so it is
+	// also the one a running proxy is compared with. (Comparing with the last entry restarted the proxy
+	// on every reload of an unchanged configuration.)
+	proxyCfgs = lo.UniqBy(proxyCfgs, func(c v1.ProxyConfigurer) string {
+		return c.GetBaseConfig().Name
+	})
 	proxyCfgsMap := lo.KeyBy(proxyCfgs, func(c v1.ProxyConfigurer) string {
 		return c.GetBaseConfig().Name
 	})
